@@ -87,6 +87,15 @@ func genC08Header(t *tape.Tape) (hdr []byte, class, src, dst, desc string) {
 		if t.Chance(1, 6) {
 			s, d = net.ParseIP("::1"), net.ParseIP("::2")
 		}
+		if t.Chance(1, 8) {
+			// the shortest spellings there are: "::" (with one-digit ports the whole line has 22 bytes)
+			if t.Chance(1, 2) {
+				s = net.IPv6unspecified
+			}
+			if t.Chance(2, 3) {
+				d = net.IPv6unspecified
+			}
+		}
 		sp, dp := genPort(t), genPort(t)
 		ss, ds := s.String(), d.String()
 		if t.Chance(1, 4) { // fully expanded spelling: the 107-byte maximum of the v1 line is reached with ports of 5 digits
